@@ -24,10 +24,10 @@ Theorem C16_route_table_obligation : route_table_ok RouteTable.table RouteTable.
 Proof. vm_compute. reflexivity. Qed.
 Print Assumptions C16_route_table_obligation.
 
-(* the Go handler of every modelled registration constructs exactly the storage request types the model
-   issues (and evaluator requests iff the model does); handlers registered under GET construct only
-   StorageFetch* types *)
-Theorem C16_request_types_obligation : request_types_ok RouteTable.handler_requests = true.
+(* the Go function the table registers for every modelled route (whatever its name: handlers may be renamed or merged
+   into a factory) constructs exactly the storage request types the model issues (and evaluator requests iff the model
+   does); functions registered under GET construct only StorageFetch* types *)
+Theorem C16_request_types_obligation : request_types_ok RouteTable.table RouteTable.handler_requests = true.
 Proof. vm_compute. reflexivity. Qed.
 Print Assumptions C16_request_types_obligation.
 
@@ -301,8 +301,8 @@ Print Assumptions C16_get_is_readonly.
 Theorem C16_route_table_complete :
   forall tbl opts, route_table_ok tbl opts = true ->
     (forall m p, In (m, p) documented_v3 ->
-       exists r segs reg, is_v3 r = true /\ route_method r = m /\ route_pattern r = p /\
-                          In (RtRow m p segs (route_handler r) reg) tbl) /\
+       exists r segs h reg, is_v3 r = true /\ route_method r = m /\ route_pattern r = p /\
+                          In (RtRow m p segs h reg) tbl) /\
     (forall r, count_rows (row_is r) tbl = 1%nat /\ count_rows (row_same_path r) tbl = 1%nat) /\
     (forall row, In row tbl -> exists r, route_of_row row = Some r /\ row_is r row = true) /\
     (forall o, In o opts -> In (fst o) allowed_router_opts) /\ (exists o, In o opts /\ fst o = "NotFound"%string).
@@ -323,11 +323,11 @@ Proof. exact every_row_has_envelope. Qed.
 Print Assumptions C16_every_row_has_envelope.
 
 Theorem C16_get_handlers_construct_only_fetch :
-  forall hr, request_types_ok hr = true ->
+  forall tbl hr, request_types_ok tbl hr = true ->
   forall r, is_get r = true ->
-    exists tys ev pn, hreq_for (route_handler r) hr = Some (HReq (route_handler r) tys ev pn) /\
-                      (forall t, In t tys -> fetch_name t = true) /\
-                      (r <> RMetrics -> same_set tys (map req_type_name (route_req_types r)) = true /\ ev = route_evals r).
+    exists h tys ev pn, row_handler_of r tbl = Some h /\ hreq_for h hr = Some (HReq h tys ev pn) /\
+                        (forall t, In t tys -> fetch_name t = true) /\
+                        (r <> RMetrics -> same_set tys (map req_type_name (route_req_types r)) = true /\ ev = route_evals r).
 Proof. exact get_handlers_construct_only_fetch. Qed.
 Print Assumptions C16_get_handlers_construct_only_fetch.
 
